@@ -39,8 +39,8 @@ ASSUMPTIONS = [
     "comparisons are comparisons of the scaled integers of the model; the year value year + yday/365.25 never equals a "
     "multiple of 1/8 (1461 is coprime to 32*yday) and is at least 1e-5 away from one, so its rounding is immaterial",
     "key categories are interned in sorted order (pandas groupby order = model group order); simulant labels are unique",
-    "NaN attributes / NaN edges and non-numeric parameter columns are outside the model; requests are duplicate-free "
-    "label lists (the theorems assume NoDup idx)",
+    "NaN attributes / NaN edges and non-numeric parameter columns are outside the model (requests may repeat labels: "
+    "covered by the theorems and generated)",
     "the theorems C15_bin_membership / C15_extrapolate / C15_edges assume `wf` = the code's own validation "
     "(check_data_complete) AND that rows with the same left edge have the same right edge, which the code does not "
     "check (validation gap: the last bin's right edge may differ between sub-tables; see the report)",
@@ -50,8 +50,8 @@ LEVEL_NOTE = ("full on well-formed data (wf); C15_year_current carries the guard
 
 CLAIM = {
     "technique": "Coq proof over a Gallina model of the lookup tables + Coq-decided correspondence on real contexts",
-    "text": "Machine-checked (Coq 8.16.1, no axioms) for ALL well-formed binned data, populations, duplicate-free requests "
-            "and both extrapolation settings: the row returned for a simulant has the simulant's keys and half-open bins "
+    "text": "Machine-checked (Coq 8.16.1, no axioms) for ALL well-formed binned data, populations, requests (labels may "
+            "repeat) and both extrapolation settings: the row returned for a simulant has the simulant's keys and half-open bins "
             "containing every parameter value and is the unique such row; outside the range the nearest edge bin per "
             "parameter or rejection; a call is the per-simulant function mapped over the request in request order "
             "(rejection = some simulant rejected); scalar tables broadcast; categorical tables match keys. The model is "
@@ -60,7 +60,7 @@ CLAIM = {
     "note": "well-formedness = the code's own validation (check_data_complete, transcribed and compared with the real "
             "validation on malformed data) plus 'equal left edges have equal right edges', which the code does not "
             "validate; floats modelled as scaled integers (inputs are multiples of 1/8); `year` theorem guarded by "
-            "day-of-year <= 365 (open finding F-N); NaN / non-numeric parameters, duplicate labels in a request and "
+            "day-of-year <= 365 (open finding F-N); NaN / non-numeric parameters and "
             "keys absent from the data (KeyError, modelled as rejection) outside the theorems; correspondence sampled",
 }
 TRUSTED = [
@@ -458,6 +458,8 @@ def run_binned(case):
             yv = year_scaled(rec["yfloat"]) - YOFF if "yfloat" in rec else None
             ccalls.append(cpair(cz(rec["y"] - YBASE), cz(rec["yday"]), copt(yv, cz), czlist(rec["idx"]), coq_obs(rec)))
             tags.add("call_ok" if rec["code"] == 0 else f"call_{rec.get('err')}")
+            if len(set(rec["idx"])) < len(rec["idx"]):
+                tags.add("call_duplicate_labels" + ("_ok" if rec["code"] == 0 else "_rejected"))
             if rec["code"] == 0 and any(v is None for _, v in rec["rows"]):
                 tags.add("call_nan_row")
             if groups is not None:
@@ -613,6 +615,8 @@ def gen_requests(rng, n, case_tables, pop, ext):
     reqs = [perm]
     reqs.append(rng.sample(full, rng.randint(1, n)))
     reqs.append([rng.randrange(n)] if rng.random() < 0.7 else [])
+    if rng.random() < 0.4:                       # a request that names simulants several times
+        reqs.append([rng.randrange(n) for _ in range(rng.randint(2, n + 2))])
     later = 0
     if not ext:
         # requests made only of simulants inside every table's range (so that non-extrapolating calls also succeed)
@@ -640,6 +644,8 @@ def gen_requests(rng, n, case_tables, pop, ext):
             reqs.append(inside)
             if len(inside) > 2:
                 reqs.append(rng.sample(inside, rng.randint(1, len(inside) - 1)))
+            elif rng.random() < 0.5:
+                reqs.append([rng.choice(inside) for _ in range(rng.randint(2, 4))])
     if rng.random() < 0.04:
         reqs.append([0, 999])
     return reqs, later
@@ -784,6 +790,10 @@ def gen_cat(rng):
     pop = gen_population(rng, tables, n, True)
     start, step, nsteps = gen_schedule(rng, False)
     reqs, _ = gen_requests(rng, n, tables, pop, True)
+    if any(len({tuple(r["k"]) for r in t["rows"]}) < len(t["rows"]) for t in tables):
+        # malformed data (several rows per key tuple) is assigned positionally by numpy; with repeated labels in the
+        # request pandas' .loc selects every occurrence twice - outside the model (and outside the property)
+        reqs = [r for r in reqs if len(set(r)) == len(r)]
     # groups whose size equals a duplicate count are what a positional match would get "right": make them likely
     return {"ext": True, "validate": rng.random() < 0.8, "start": start, "step": 1, "nsteps": rng.choice([0, 1]),
             "in_event": False, "pop": pop, "tables": tables, "untracked": [0] if rng.random() < 0.2 else [],
